@@ -261,6 +261,9 @@ def selftest_mutants(rest):
             env['PICOSIM_MAX_REPORTS'] = '2'
             if no_slices:
                 env['PICOSIM_NO_OPT'] = '1'
+            # (the replay is confirmed either way; a smaller minimiser budget
+            # only leaves it less minimal)
+            env.setdefault('PICOSIM_SHRINK', '60')
             env['PICOSIM_EVIDENCE_DIR'] = os.path.join(scratch, 'evidence')
             env['PICOSIM_REPLAY_DIR'] = os.path.join(scratch, 'replays')
             t1 = time.time()
